@@ -126,3 +126,29 @@ func verifC06Stub(both bool) {
 
 func VerifC06_Stub_One()  { verifC06Stub(false) }
 func VerifC06_Stub_Both() { verifC06Stub(true) }
+
+// the first alternative's event is already there when the token reaches the gateway: the winner may be determined
+// before the other alternative's flow has parked; the loser must still be withdrawn
+func VerifC06_Stub_Early() {
+	inst, h1, h2 := verifC06Inst()
+	if inst == nil {
+		return
+	}
+	n1, _ := inst.eventNodeAt("c1"), inst.eventNodeAt("c2")
+	close(n1.fire)
+	inst.tokenAt("gw", "in")
+	verifQuiesce()
+	verifReach("quiescent")
+	verifAssert(verifGet(h1) == 1 && verifGet(h2) == 0, "the winning alternative continues exactly once (the instance goes on)")
+	done := make(chan struct{})
+	go func() {
+		inst.proc.flowWaitGroup.Wait()
+		close(done)
+	}()
+	verifQuiesce()
+	select {
+	case <-done:
+	default:
+		verifAssert(false, "every losing alternative is withdrawn and the winner moves on (no token is left at the gateway's alternatives)")
+	}
+}
